@@ -22,12 +22,25 @@ def salt_of(case, seed):
     return (zlib.crc32(json.dumps([case["cfg"], case["i"]], sort_keys=True).encode()) + seed * 7919) & 0xFFFF
 
 
+# What a parser handed out stays the caller's: a batch of conversions is ONE caller that keeps every returned interface and re-reads it
+# when the batch is over (a cache that hands out one mutable object twice, an emitter that edits what an earlier parse returned, show here).
+HELD = []          # (index of the case within the batch, the returned object, what it read then)
+CURRENT = [0]
+
+
+def _hold(back, pl):
+    if back is not None and len(HELD) < 4096:
+        HELD.append((CURRENT[0], back, json.dumps(pl, sort_keys=True, default=repr)))
+
+
 def run_docstring(cfg, ir):
     from harness import real
 
     text, back = real.rt_docstring(ir, style=cfg["style"], edd=cfg["edd"], et=cfg["et"], ww=cfg.get("ww", True),
                                    parse_edd=None if cfg.get("keep") else False)
-    return text, real.plain(back)
+    pl = real.plain(back)
+    _hold(back, pl)
+    return text, pl
 
 
 def run_format(cfg, ir):
@@ -46,7 +59,9 @@ def run_format(cfg, ir):
     elif f == "docstring":
         return run_docstring(cfg, ir)
     src, back = real.ROUND[f](ir, **kw)
-    return src, real.plain(back)
+    pl = real.plain(back)
+    _hold(back, pl)
+    return src, pl
 
 
 RUNNERS = {"docstring": run_docstring, "format": run_format}
@@ -131,7 +146,24 @@ def G_plain(ir):
 
 
 def _batch(args):
-    return [judge_case(a) for a in args]
+    from harness import real
+
+    del HELD[:]
+    out = []
+    for k, a in enumerate(args):
+        CURRENT[0] = k
+        out.append(judge_case(a))
+    for k, back, snap in HELD:
+        try:
+            now = json.dumps(real.plain(back), sort_keys=True, default=repr)
+        except Exception as e:  # noqa
+            now = "unreadable: {!r}".format(e)
+        if now != snap and out[k].get("verdict") != "violation":
+            out[k]["verdict"] = "violation"
+            out[k]["diffs"] = [("aliased", "the interface returned for this case was changed afterwards by a LATER conversion in the same process: "
+                                "it read {} and now reads {}".format(snap[:160], now[:160]))]
+    del HELD[:]
+    return out
 
 
 def abstract_key(case, res):
